@@ -188,6 +188,20 @@ func genScenario(o world.Opts) *Scenario {
 		}
 	}
 	sc.NoRecurse = simrt.Flip("opt.no-recurse", 0.15)
+	if simrt.Flip("opt.generate-plugin-api", 0.08) {
+		// the built-in generator behind --generate-plugin-api is written for plugin/api.thrift;
+		// its client template cannot render a service whose parent lives in another module
+		// (observed: `wrong type for value; expected string; got *api.Module`), which is
+		// outside the listed properties - such programs run without the flag
+		sc.PluginAPI = true
+		for _, f := range sc.Prog.Files {
+			for _, d := range f.Defs {
+				if d.Kind == progen.KService && d.Parent != nil && d.Parent.File != d.File {
+					sc.PluginAPI = false
+				}
+			}
+		}
+	}
 	np := simrt.ChoiceBias("plugins.n", 4, 0.1)
 	faultP := []float64{0, 0.08, 0.25}[simrt.Choice("plugins.fault-rate", 3)]
 	for i := 0; i < np; i++ {
@@ -358,6 +372,9 @@ func RunOne(cfg simrt.Config, o world.Opts) *world.Result {
 		}
 		for _, ps := range sc.Plugins {
 			args = append(args, "-p", ps.Name)
+		}
+		if sc.PluginAPI {
+			args = append(args, "--generate-plugin-api")
 		}
 		args = append(args, filepath.Join(env.Thrift, filepath.FromSlash(sc.Prog.Files[0].RelPath())))
 		os.Args = args
